@@ -202,6 +202,52 @@ def fam_hist():
     t = StructDef('HsT', [Field(1, 'required', S('i64')), Field(64, 'required', S('i8')), Field(2, 'default', ('map', S('i8'), leafv)),
                           Field(900, 'required', S('i16'))], has_unknown=True)
     ps = [{'orders': 1}]
-    return [{'p': h1, 'w': w, 't': t, 'params': ps, 'reach': ['end', 'ok', 'missing']}]
+    out = [{'p': h1, 'w': w, 't': t, 'params': ps, 'reach': ['end', 'ok', 'missing']}]
+    # presence-set clearing: required id sets whose largest / smallest member sits on every kind of word position
+    for n, ids in enumerate([[64], [0], [1, 128], [63, 64, 65], [127], [1024, 1], [65534], [2, 192, 193]]):
+        wv = StructDef('HsRW%d' % n, [Field(i, 'optional', S('i8'), ptr=True, name='F%d' % i) for i in ids])
+        tv = StructDef('HsRT%d' % n, [Field(i, 'required', S('i8'), name='F%d' % i) for i in ids])
+        lw = StructDef('HsLW%d' % n, [Field(1, 'default', ('list', ('struct', wv, True)))])
+        lt = StructDef('HsLT%d' % n, [Field(1, 'default', ('list', ('struct', tv, True)))])
+        out.append({'p': tv, 'w': wv, 't': tv, 'params': ps, 'reach': ['end', 'ok', 'missing']})
+        out.append({'w': lw, 't': lt, 'kinds': ['decmsg'], 'params': {'decmsg': [{'orders': 1, 'L': 2}]}, 'reach': ['end', 'ok', 'missing']})
+    return out
 
-FAMILIES = {'hist': fam_hist, 'threshold': fam_threshold, 'threshold_full': lambda: fam_threshold(True), 'dec2': fam_dec2, 'default': fam_default, 'nocopy': fam_nocopy, 'unknown': fam_unknown, 'ids': fam_ids, 'nest': fam_nest, 'evolve': fam_evolve, 'evolve_full': lambda: fam_evolve(6), 'required': fam_required, 'bytes8': lambda: fam_bytes(8), 'bytes12': lambda: fam_bytes(12), 'scalar': fam_scalar, 'list': fam_list, 'map': fam_map}
+def fam_twin():
+    # same Go type, different Thrift meaning (set vs list) at depth 0, 1 and 2: the descriptor caches must keep them apart
+    i64, i32, i8 = S('i64'), S('i32'), S('i8')
+    defs = [
+        ('TwA1', ('map', S('string'), ('list', ('set', i64)))), ('TwA2', ('map', S('string'), ('list', ('list', i64)))),
+        ('TwA3', ('map', S('string'), ('set', ('list', i64)))),
+        ('TwB1', ('list', ('map', i32, ('list', i32)))), ('TwB2', ('list', ('map', i32, ('set', i32)))), ('TwB3', ('set', ('map', i32, ('list', i32)))),
+        ('TwC1', ('list', ('list', ('set', i8)))), ('TwC2', ('list', ('list', ('list', i8)))), ('TwC3', ('list', ('set', ('list', i8)))),
+        ('TwC4', ('set', ('list', ('list', i8)))),
+        ('TwD1', ('map', i32, ('map', i32, ('set', S('string'))))), ('TwD2', ('map', i32, ('map', i32, ('list', S('string'))))),
+    ]
+    sm = {'codec': [{'S': 1, 'L': 1, 'M': 1, 'D': 1}]}
+    return [{'sd': StructDef(n, [Field(1, 'default', t)]), 'kinds': ['codec'], 'params': sm} for n, t in defs]
+
+def fam_mutmsg(full=False):
+    i64, i32, i8, st = S('i64'), S('i32'), S('i8'), S('string')
+    types = [
+        StructDef('MuA', [Field(1, 'default', ('map', st, i64)), Field(2, 'default', ('map', st, S('bool')))]),
+        StructDef('MuB', [Field(1, 'default', ('map', i32, st)), Field(2, 'default', ('map', st, ('struct', LEAF, True)))]),
+        StructDef('MuC', [Field(1, 'default', ('list', st)), Field(2, 'default', ('list', ('struct', LEAF, False))), Field(3, 'default', ('set', i64))]),
+        StructDef('MuD', [Field(1, 'required', i32), Field(2, 'optional', st, ptr=True), Field(3, 'default', S('binary')), Field(4, 'default', S('double')),
+                          Field(5, 'default', ('struct', LEAF, True))], has_unknown=True),
+        StructDef('MuE', [Field(1, 'default', ('map', ('struct', LEAF, True), ('list', i32))), Field(2, 'default', ('list', ('map', i8, i8)))]),
+        StructDef('MuF', [Field(1, 'default', st, nocopy=True), Field(2, 'default', S('binary'), nocopy=True), Field(3, 'default', ('map', S('enum'), S('i16')))]),
+    ]
+    out = []
+    def add(w, t, muts):
+        for mu in muts:
+            out.append({'w': w, 't': t, 'kinds': ['mutmsg'], 'params': {'mutmsg': [{'mut': mu}]}, 'reach': ['end', ['cut', 'byte', 'word'][mu]]})
+    unk = StructDef('MuSkip', [Field(900, 'default', i8)], has_unknown=True)
+    for k, sd in enumerate(types):
+        add(sd, sd, [0, 1, 2] if (full or k == 0) else [0])
+    # a reader that does not know the writer's fields: everything goes through the unknown-field skipper
+    for k, sd in enumerate(types[:5]):
+        add(sd, unk, [0, 1, 2] if full else [0])
+    return out
+
+FAMILIES = {'mutmsg': fam_mutmsg, 'mutmsg_full': lambda: fam_mutmsg(True), 'twin': fam_twin, 'hist': fam_hist, 'threshold': fam_threshold, 'threshold_full': lambda: fam_threshold(True), 'dec2': fam_dec2, 'default': fam_default, 'nocopy': fam_nocopy, 'unknown': fam_unknown, 'ids': fam_ids, 'nest': fam_nest, 'evolve': fam_evolve, 'evolve_full': lambda: fam_evolve(6), 'required': fam_required, 'bytes8': lambda: fam_bytes(8), 'bytes12': lambda: fam_bytes(12), 'scalar': fam_scalar, 'list': fam_list, 'map': fam_map}
